@@ -6,7 +6,7 @@
    return.  Next plays every joint action (legal or not, also after termination; with LegalOnly = TRUE only joint
    actions in which every agent that has a legal node picks one) and every outcome of the tie-break.
    Without a time limit in reach (tl = NoLimit) the step counter is hidden by the VIEW and the whole game graph
-   is visited; the time limits in Limits are played out with the true counter, one step beyond the limit. *)
+   is visited; the time limits in Limits are played out with the true counter, one step beyond the limit, on three graphs. *)
 EXTENDS MMST
 
 CONSTANTS Limits, MinEdges, MaxEdges, LegalOnly
@@ -36,10 +36,15 @@ JointActions == [1..NumAgents -> Nodes]
 HasLegal(k) == \E v \in Nodes : LegalAg(s, k, v)
 Respectful(a) == \A k \in Agents : IF HasLegal(k) THEN LegalAg(s, k, a[k + 1]) ELSE a[k + 1] = 0
 
+(* the few graphs on which the time limits are played out step by step (the time rule does not look at the graph):
+   a path through the utility node, a cycle, the complete graph *)
+TimedInstances == { Instance(E) : E \in { { <<0, 2>>, <<1, 2>>, <<2, 3>>, <<3, 4>> },
+                                          { <<0, 1>>, <<1, 2>>, <<2, 3>>, <<3, 4>>, <<0, 4>> },
+                                          Pairs } }
 NoLimit == 99
 Init ==
-  /\ tl \in Limits \cup {NoLimit}
-  /\ s \in Instances
+  /\ \/ tl = NoLimit /\ s \in Instances
+     \/ tl \in Limits /\ s \in TimedInstances
   /\ type = FIRST
 
 Step(a) ==
